@@ -109,7 +109,7 @@ def gen_seg(rng, n, tier):
         k = rng.randint(3, 9)
         vals = rng.choice([[0, 1, 2], [1, 3, 4, 9], [-2, -1, 0, 1, 3], [-0.5, -4, 2, 0.25], [-1, -3, -8], [0.5, 0.25, 1.75, 3]])
         out.append({'K': [[rng.choice(vals) for _ in range(k)] for _ in range(k)], 'mode': rng.choice([0, 1]),
-                    'via': rng.choice(['segmentation', 'segmentation', 'simplification', 'simplify']), 'verbose': rng.random() < 0.5})
+                    'via': rng.choice(['segmentation', 'segmentation', 'simplification', 'simplify']), 'verbose': rng.random() < 0.5, 'glob': rng.choice([None, 7, 0, 0.0, 2.5])})
     return out
 
 
@@ -129,7 +129,7 @@ def run_seg(case):
     sg = sys.modules['tracklib.algo.segmentation']
     K = case['K']
     tr = Track([Obs(ENUCoords(i, 0, 0), ObsTime.readUnixTime(i)) for i in range(len(K))])
-    glob = None if case['mode'] == 0 else 7          # with and without the global parameter
+    glob = case.get('glob', None if case['mode'] == 0 else 7)          # with and without the global parameter; 0 is a parameter like any other
     cost = (lambda t, i, j: float(K[i][j + 1])) if glob is None else (lambda t, i, j, g: float(K[i][j + 1]))
     via = case.get('via', 'segmentation')
     if via == 'segmentation':
